@@ -259,7 +259,7 @@ def rand_source(rng):
         return {"kind": k, "via": "profile" if g and rng.random() < 0.5 else "polyapi", "grid": g, "co": co, "sh": sh}
     if k == "fill":
         fk = rng.choice(["linear", "bound"])
-        return {"kind": "fill", "via": "fill", "fk": fk, "len": rng.choice([2, 3, 4, 7, 20]), "ld": rng.choice([1, 2, 5]),
+        return {"kind": "fill", "via": "fill", "fk": fk, "len": rng.choice([0, 1, 1, 2, 3, 4, 7, 20]), "ld": rng.choice([1, 2, 3, 5]),
                 "a": norm(rnum(rng, 99, (1, 2, 4))), "b": norm(rnum(rng, 99, (1, 2, 4))), "c": norm(rnum(rng, 99, (1, 2, 4)))}
     vals = [norm([rng.randrange(-10 ** rng.randrange(1, 7), 10 ** rng.randrange(1, 7)), rng.choice([1, 1, 2, 4, 8, 10, 100, 1000])])
             for _ in range(rng.choice([0, 1, 2, 3, 6, 15]) if k != "values" else rng.choice([1, 2, 3, 6, 15]))]
